@@ -9,6 +9,7 @@ work = str(chk.scratch/"c47"); os.makedirs(work); spool=work+"/spool"; os.mkdir(
 proc, port = c47.start_server(spool)
 try:
     case = c47.gen_case(chk.rng, kind)
+    if os.environ.get("CHUNK"): case["chunk"]=int(os.environ["CHUNK"])
     t=time.time()
     res = c47.run_case_real(chk, case, 0, port, spool, root, int(os.environ.get("MAXP","12")))
     print("time", time.time()-t, "tags", res["tags"], "code", res["ref"]["code"], res["ref"]["detail"])
